@@ -112,10 +112,19 @@ fn gen_opts_for(lang: &str, r: &mut Rng, tier: Tier) -> GenOpts {
     }
     o.max_crates = r.range(1, 4) as usize;
     // rarely a wide tree: more files than the channel holds at its shipped capacity
-    if r.chance(1, 250) {
-        o.max_files = 260;
-        o.max_items = 180;
-        o.max_crates = r.range(1, 3) as usize;
+    match r.below(600) {
+        0 | 1 => {
+            o.max_files = 260;
+            o.max_items = 180;
+            o.max_crates = r.range(1, 3) as usize;
+        }
+        // and, more rarely, many hundreds of results (counters, batching thresholds)
+        2 => {
+            o.max_files = 900;
+            o.max_items = 760;
+            o.max_crates = r.range(1, 3) as usize;
+        }
+        _ => {}
     }
     o
 }
